@@ -6,7 +6,7 @@ Type expressions (lists, JSON friendly):
   ["void"]
   ["n", "st3"]                     reference to a named type (struct/union/enum/typedef/class)
   ["p", T]                         pointer to T
-  ["r", T]                         C++ lvalue reference to T
+  ["r", T]                         C++ lvalue reference to T;  ["r", T, "rvalue"]  rvalue reference (T&&)
   ["c", T] / ["v", T]              const / volatile T   (never on arrays or function types)
   ["a", T, n]                      array of n T
   ["fn", RET, [T...], variadic]    function type (only ever used under a pointer)
@@ -194,7 +194,7 @@ def decl(model, t, inner="", cxx=False):
         return q + " " + decl(model, sub, inner, cxx)
     if k in ("p", "r"):
         sub = t[1]
-        s = ("*" if k == "p" else "&") + inner
+        s = ("*" if k == "p" else ("&&" if len(t) > 2 else "&")) + inner
         if strip_cv(sub)[0] in ("a", "fn") or sub[0] in ("a", "fn"):
             s = "(" + s + ")"
         return decl(model, sub, s, cxx)
@@ -357,7 +357,8 @@ def render_function(model, f, cxx):
         # never executed; avoids needing a default constructor
         tt = strip_cv(rt[1]) if rt[0] == "r" else rt
         out.append("  " + decl(model, ["p", tt], "ret_ptr", cxx) + " = 0;")
-        out.append("  return *ret_ptr;")
+        out.append("  return static_cast<%s>(*ret_ptr);" % decl(model, rt, "", cxx) if rt[0] == "r" and len(rt) > 2
+                   else "  return *ret_ptr;")
     else:
         out.append("  static " + decl(model, rt, "ret_obj", cxx) + ";")
         out.append("  return ret_obj;")
@@ -448,7 +449,8 @@ def render_tu(model, k, headers=("types.h",), order=None, blank=0, comments=Fals
                         out.append("{ }")
                     else:
                         out.append("{ " + decl(model, ["p", rt if rt[0] != "r" else strip_cv(rt[1])], "ret_ptr", True)
-                                   + " = 0; return *ret_ptr; }")
+                                   + " = 0; return %s; }" % ("static_cast<%s>(*ret_ptr)" % decl(model, rt, "", True)
+                                                             if rt[0] == "r" and len(rt) > 2 else "*ret_ptr"))
                 for m in t.get("members", []):
                     if m.get("static"):
                         q = (t["ns"] + "::" if t.get("ns") else "") + t["name"] + "::" + m["name"]
